@@ -3,6 +3,7 @@ package main
 import (
 	"fmt"
 	"go/types"
+	"sort"
 	"strings"
 
 	"golang.org/x/tools/go/ssa"
@@ -14,6 +15,7 @@ func (P *Program) staticChecks(prop string) []*Obligation {
 	var out []*Obligation
 	out = append(out, P.typeInvImmutable(prop)...)
 	out = append(out, P.funcTypeFrames(prop)...)
+	out = append(out, P.chanClosureFrames(prop)...)
 	return out
 }
 
@@ -116,7 +118,19 @@ func (P *Program) typeInvImmutable(prop string) []*Obligation {
 		exprFields(ti.Clause.Expr, fields)
 		ok := true
 		why := ""
+		// option functions run only while the object is under construction (before it is
+		// published to another goroutine): they count as construction code
+		builders := map[*ssa.Function]bool{}
+		switch ti.Type {
+		case "bState":
+			builders = P.funcTypeTargets("BarOption")
+		case "pState":
+			builders = P.funcTypeTargets("ContainerOption")
+		}
 		for _, fn := range P.ModFuncs {
+			if builders[fn] {
+				continue
+			}
 			fresh := freshValues(fn)
 			for _, b := range fn.Blocks {
 				for _, in := range b.Instrs {
@@ -221,6 +235,147 @@ func (P *Program) funcTypeFrames(prop string) []*Obligation {
 			}
 		}
 		out = append(out, staticOb("static/functype-frame:"+name, "?", fmt.Sprintf("every module function used as a %s (%d found) writes only what its contract allows", name, n), ok, why))
+	}
+	return out
+}
+
+// chanClosureFrames: every closure of the module that is sent on a channel whose receiver
+// applies it under a functype contract (Bar.operateState -> (*Bar).serve.op,
+// Progress.operateState -> (*Progress).serve.op) writes only what that contract allows.
+func (P *Program) chanClosureFrames(prop string) []*Obligation {
+	links := map[string]string{
+		"Bar.operateState":      "(*Bar).serve.op",
+		"Progress.operateState": "(*Progress).serve.op",
+		"Progress.interceptIO":  "(*Progress).serve.fn",
+	}
+	var out []*Obligation
+	var roles []string
+	for r := range links {
+		roles = append(roles, r)
+	}
+	sort.Strings(roles)
+	for _, role := range roles {
+		ct := P.FuncType[links[role]]
+		if ct == nil || !hasProp(ct.Props, prop) || !ct.HasMod {
+			continue
+		}
+		allowed := map[string]bool{}
+		for _, k := range P.declaredModKeysIface(ct) {
+			allowed[k] = true
+		}
+		if allowed[modAll] {
+			continue
+		}
+		ok := true
+		why := ""
+		n := 0
+		check := func(fn *ssa.Function, ch, v ssa.Value) {
+			if chanRole(ch) != role {
+				return
+			}
+			var target *ssa.Function
+			switch c := v.(type) {
+			case *ssa.MakeClosure:
+				target, _ = c.Fn.(*ssa.Function)
+			case *ssa.Function:
+				target = c
+			case *ssa.UnOp:
+				// a local variable holding one closure (fn := func...; ch <- fn)
+				if cell, isA := c.X.(*ssa.Alloc); isA {
+					if refs := cell.Referrers(); refs != nil {
+						for _, r := range *refs {
+							if st, isS := r.(*ssa.Store); isS && st.Addr == ssa.Value(cell) {
+								if mc, isMC := st.Val.(*ssa.MakeClosure); isMC {
+									target, _ = mc.Fn.(*ssa.Function)
+								}
+							}
+						}
+					}
+				}
+			}
+			if target == nil {
+				ok = false
+				why = "a value of unknown origin is sent on " + role + " in " + relName(fn)
+				return
+			}
+			n++
+			for k := range P.ModSet(target) {
+				base := k
+				if i := strings.Index(k, ":"); i > 0 {
+					base = k[:i]
+				}
+				if !allowed[k] && !allowed[base] && !(strings.HasPrefix(k, "#spawn$") && allowed[ghSpawn]) && !(strings.HasPrefix(k, ghLast) && allowed[ghSent]) && !(strings.HasPrefix(k, "#lrecv") && allowed[ghRecvd]) {
+					ok = false
+					why = relName(target) + " (sent on " + role + ") writes " + k
+				}
+			}
+		}
+		for _, fn := range P.ModFuncs {
+			for _, b := range fn.Blocks {
+				for _, in := range b.Instrs {
+					switch x := in.(type) {
+					case *ssa.Send:
+						check(fn, x.Chan, x.X)
+					case *ssa.Select:
+						for _, sc := range x.States {
+							if sc.Dir == types.SendOnly {
+								check(fn, sc.Chan, sc.Send)
+							}
+						}
+					}
+				}
+			}
+		}
+		out = append(out, staticOb("static/chan-frame:"+role, "?", fmt.Sprintf("every closure sent on %s (%d send sites) writes only what %s allows", role, n, links[role]), ok, why))
+	}
+	return out
+}
+
+// funcTypeTargets: the functions of the module that are used as values of a named func type.
+func (P *Program) funcTypeTargets(name string) map[*ssa.Function]bool {
+	out := map[*ssa.Function]bool{}
+	for _, fn := range P.ModFuncs {
+		for _, b := range fn.Blocks {
+			for _, in := range b.Instrs {
+				var val ssa.Value
+				var typ types.Type
+				switch x := in.(type) {
+				case *ssa.ChangeType:
+					val, typ = x.X, x.Type()
+				case *ssa.MakeClosure:
+					val, typ = x, x.Type()
+				case *ssa.Return:
+					for i, r := range x.Results {
+						if nt, isN := types.Unalias(fn.Signature.Results().At(i).Type()).(*types.Named); isN && nt.Obj().Name() == name {
+							val, typ = r, nt
+						}
+					}
+				}
+				if val == nil || typ == nil {
+					continue
+				}
+				nt, isN := types.Unalias(typ).(*types.Named)
+				if !isN || nt.Obj().Name() != name || !inModule(nt.Obj().Pkg()) {
+					continue
+				}
+				switch v := val.(type) {
+				case *ssa.MakeClosure:
+					if f, ok := v.Fn.(*ssa.Function); ok {
+						out[f] = true
+					}
+				case *ssa.Function:
+					out[v] = true
+				case *ssa.ChangeType:
+					if mc, isMC := v.X.(*ssa.MakeClosure); isMC {
+						if f, ok := mc.Fn.(*ssa.Function); ok {
+							out[f] = true
+						}
+					} else if f, isF := v.X.(*ssa.Function); isF {
+						out[f] = true
+					}
+				}
+			}
+		}
 	}
 	return out
 }
